@@ -8,9 +8,24 @@ use serde::ser::{self, Serialize, Serializer};
 use std::fmt;
 use std::sync::Arc;
 
-pub const LAZY_SEQ_KINDS: [&str; 17] = [
-    "os", "ie", "if", "ic", "iu", "oi", "cq", "cl", "cv", "ce", "cn", "ci", "cx", "cr", "cs", "ch", "cw",
+pub const LAZY_SEQ_KINDS: [&str; 20] = [
+    "os", "ie", "if", "ic", "iu", "oi", "cq", "cl", "cv", "ce", "cn", "ci", "cx", "cr", "cs", "ch", "cw", "l0", "l1", "l2",
 ];
+
+/// an iterator that lies about its length (`size_hint` = `(claim, Some(claim))`)
+pub struct Liar {
+    inner: std::vec::IntoIter<Value>,
+    claim: usize,
+}
+impl Iterator for Liar {
+    type Item = Value;
+    fn next(&mut self) -> Option<Value> {
+        self.inner.next()
+    }
+    fn size_hint(&self) -> (usize, Option<usize>) {
+        (self.claim, Some(self.claim))
+    }
+}
 pub const LAZY_MAP_KINDS: [&str; 7] = ["wi", "wx", "wk", "wu", "wr", "wv", "wn"];
 
 /// a custom sequence-like object answering `enumerate()` in the way `kind` says
@@ -42,6 +57,9 @@ impl Object for CustomSeq {
             "cx" => Enumerator::Iter(Box::new(items.into_iter())),
             "cr" => Enumerator::RevIter(Box::new(items.into_iter())),
             "cs" => Enumerator::Str(self.names),
+            "l0" => Enumerator::Iter(Box::new(Liar { claim: 0, inner: items.into_iter() })),
+            "l1" => Enumerator::Iter(Box::new(Liar { claim: items.len() + 1, inner: items.into_iter() })),
+            "l2" => Enumerator::Iter(Box::new(Liar { claim: items.len().saturating_sub(1), inner: items.into_iter() })),
             // lower bound = length, no upper bound
             "ch" => Enumerator::Iter(Box::new(items.into_iter().chain(std::iter::from_fn(|| None)))),
             // lower bound 1 (or 0), upper bound = length
